@@ -330,3 +330,679 @@ Proof.
     + eapply home_ok_mono; [|apply (inv_home s I)]. intros k. cbv beta. rewrite R. destruct (_ =? _); lia.
     + apply (inv_nofail s I).
 Qed.
+
+(* ---- the holder receives a my-reference *)
+Lemma get_ref_facts t np :
+  let '(t', p, np') := get_ref t np in
+  t_clid t' = t_clid t /\ t_recv t' = t_recv t + 1 /\ t_proxy t' = Some p /\
+  (t_proxy t = Some p \/ (t_proxy t = None /\ p = np)).
+Proof. unfold get_ref. destruct (t_proxy t) as [q|] eqn:E; cbn; rewrite getRef_incr_spec; auto 6. Qed.
+
+Definition myref_trk (s : state) (c : Z) : list tracker :=
+  match tab_get (h_tab (hd s)) c with
+  | Some _ => h_trk (hd s)
+  | None => h_trk (hd s) ++ [{| t_clid := c; t_recv := 0; t_proxy := None |}] end.
+Definition myref_tab (s : state) (c : Z) : list (Z * nat) :=
+  match tab_get (h_tab (hd s)) c with
+  | Some _ => h_tab (hd s)
+  | None => (c, List.length (h_trk (hd s))) :: h_tab (hd s) end.
+Definition myref_idx (s : state) (c : Z) : nat :=
+  match tab_get (h_tab (hd s)) c with Some i => i | None => List.length (h_trk (hd s)) end.
+
+Definition myref_core (s : state) (trk : list tracker) (tab : list (Z * nat)) (i : nat) (rest : list msgOH)
+  : state * list event :=
+  match nth_error trk i with
+  | Some t =>
+    let '(t', p, np) := get_ref t (h_nextpid (hd s)) in
+    ({| ow := ow s;
+        hd := {| h_trk := upd_nth trk i (fun _ => t'); h_tab := tab; h_nextpid := np; h_nextrid := h_nextrid (hd s);
+                 h_pend := h_pend (hd s); h_acks := h_acks (hd s) |};
+        ch_oh := rest; ch_ho := ch_ho s; lost := lost s; leaked := leaked s |}, [EvDelivered p])
+  | None => (s, [])
+  end.
+
+Lemma do_myref_eq s c rest : do_myref s c rest = myref_core s (myref_trk s c) (myref_tab s c) (myref_idx s c) rest.
+Proof. unfold do_myref, myref_core, myref_trk, myref_tab, myref_idx. destruct (tab_get (h_tab (hd s)) c); reflexivity. Qed.
+
+Lemma myref_nth s c : Inv s -> exists t, nth_error (myref_trk s c) (myref_idx s c) = Some t /\ t_clid t = c.
+Proof.
+  intros I. unfold myref_trk, myref_idx. destruct (tab_get (h_tab (hd s)) c) as [i|] eqn:G.
+  - apply (inv_tab s I) in G. exact G.
+  - eexists. split; [apply nth_error_app_last | reflexivity].
+Qed.
+
+Lemma Inv_myref s c rest : Inv s -> ch_oh s = MyRef c false :: rest -> Inv (fst (do_myref s c rest)).
+Proof.
+  intros I Hch. rewrite do_myref_eq.
+  assert (Hsum : forall k, recv_sum (myref_trk s c) k = recv_sum (h_trk (hd s)) k).
+  { intros k. unfold myref_trk. destruct (tab_get _ _); [reflexivity|]. rewrite recv_sum_app. unfold contrib. cbn.
+    destruct (_ =? _); lia. }
+  assert (Hrecv0 : Forall (fun t => 0 <= t_recv t) (myref_trk s c)).
+  { unfold myref_trk. destruct (tab_get _ _); [apply (inv_recv s I)|]. apply Forall_app. split; [apply (inv_recv s I)|].
+    constructor; [cbn; lia | constructor]. }
+  assert (Halive0 : Forall (fun t => t_proxy t <> None -> 1 <= t_recv t) (myref_trk s c)).
+  { unfold myref_trk. destruct (tab_get _ _); [apply (inv_alive s I)|]. apply Forall_app. split; [apply (inv_alive s I)|].
+    constructor; [cbn; congruence | constructor]. }
+  pose proof (myref_nth s c I) as Hnth.
+  assert (Htab0 : forall k j, tab_get (myref_tab s c) k = Some j ->
+                              exists t, nth_error (myref_trk s c) j = Some t /\ t_clid t = k).
+  { intros k j. unfold myref_tab, myref_trk. destruct (tab_get (h_tab (hd s)) c) as [i|] eqn:G.
+    - apply (inv_tab s I).
+    - cbn [tab_get]. destruct (c =? k) eqn:Ek.
+      + intros E; inversion E; subst j. apply Z.eqb_eq in Ek. subst k.
+        eexists. split; [apply nth_error_app_last | reflexivity].
+      + intros H. apply (inv_tab s I) in H as (t & H1 & H2). exists t. split; [|exact H2].
+        rewrite nth_error_app1; [exact H1 | apply nth_error_Some; congruence]. }
+  assert (Hpend0 : forall j t, nth_error (myref_trk s c) j = Some t -> 1 <= t_recv t ->
+                               t_proxy t <> None \/ In j (h_pend (hd s))).
+  { intros j t. unfold myref_trk. destruct (tab_get (h_tab (hd s)) c) as [i|] eqn:G; [apply (inv_pend s I)|].
+    intros H. destruct (Nat.lt_ge_cases j (List.length (h_trk (hd s)))) as [Hl|Hl].
+    - rewrite nth_error_app1 in H by exact Hl. apply (inv_pend s I _ _ H).
+    - rewrite nth_error_app2 in H by exact Hl. destruct (j - List.length (h_trk (hd s)))%nat as [|n]; cbn in H.
+      + inversion H; subst t. cbn. lia.
+      + destruct n; discriminate. }
+  generalize dependent (myref_trk s c). generalize dependent (myref_tab s c). generalize dependent (myref_idx s c).
+  intros i0 tab0 trk0 Hsum Hrecv0 Halive0 Hnth Htab0 Hpend0.
+  unfold myref_core. destruct Hnth as (t & Ht & Hc). rewrite Ht.
+  pose proof (get_ref_facts t (h_nextpid (hd s))) as G. destruct (get_ref t (h_nextpid (hd s))) as [[t' p] np].
+  destruct G as (G1 & G2 & G3 & G4). cbn [fst].
+  assert (Ht0 : 0 <= t_recv t) by (rewrite Forall_forall in Hrecv0; apply Hrecv0; eapply nth_error_In; eauto).
+  constructor; cbn [ow hd ch_oh ch_ho leaked h_trk h_tab h_pend].
+  - intros k. rewrite (recv_sum_upd _ _ _ t k Ht), Hsum. pose proof (inv_count s I k) as E. rewrite Hch in E.
+    cbn [inflight] in E. unfold contrib. rewrite G1, G2, Hc. destruct (c =? k); lia.
+  - apply Forall_upd_nth; [assumption | intros a _ _; lia].
+  - apply (inv_dpos s I).
+  - apply (inv_own s I).
+  - intros k j Hk. apply Htab0 in Hk as (u & Hu & Hku). rewrite nth_error_upd_nth.
+    destruct (Nat.eqb j i0) eqn:Ej; [|eauto].
+    apply Nat.eqb_eq in Ej. subst j. rewrite Hu. cbn [option_map]. eexists. split; [reflexivity|].
+    rewrite Ht in Hu. inversion Hu; subst u. congruence.
+  - apply Forall_upd_nth; [assumption | intros a _ _ _; lia].
+  - intros j u. rewrite nth_error_upd_nth. destruct (Nat.eqb j i0) eqn:Ej; [|apply Hpend0].
+    intros Hu _. apply Nat.eqb_eq in Ej. subst j. rewrite Ht in Hu. cbn [option_map] in Hu. inversion Hu; subst u.
+    left. congruence.
+  - apply (inv_home s I).
+  - apply (inv_nofail s I).
+Qed.
+
+(* ---- the holder receives the answer to a decref *)
+Lemma do_ack_tab s rid rest k j :
+  tab_get (h_tab (hd (fst (do_ack s rid rest)))) k = Some j -> tab_get (h_tab (hd s)) k = Some j.
+Proof.
+  unfold do_ack. cbn [fst hd h_tab]. rewrite freeTracker_delkey_spec.
+  destruct (acks_get _ _) as [i|]; [|auto]. destruct (nth_error _ _) as [t|]; [|auto].
+  destruct (freeTracker_keeps _); [auto|]. rewrite tab_get_del. destruct (k =? t_clid t); [discriminate | auto].
+Qed.
+
+Lemma Inv_ack s rid rest : Inv s -> ch_oh s = Ack rid :: rest -> Inv (fst (do_ack s rid rest)).
+Proof.
+  intros I Hch. constructor.
+  - intros c. pose proof (inv_count s I c) as E. rewrite Hch in E. cbn [inflight] in E. exact E.
+  - apply (inv_recv s I).
+  - apply (inv_dpos s I).
+  - apply (inv_own s I).
+  - intros c i H. apply do_ack_tab in H. apply (inv_tab s I _ _ H).
+  - apply (inv_alive s I).
+  - apply (inv_pend s I).
+  - apply (inv_home s I).
+  - apply (inv_nofail s I).
+Qed.
+
+Lemma Inv_recv_oh s : Inv s -> Inv (fst (do_recv_oh s)).
+Proof.
+  intros I. unfold do_recv_oh. destruct (ch_oh s) as [|[c [|]|rid] rest] eqn:Hch; cbn [fst]; auto.
+  - (* discarded my-reference: the holder never counts it *)
+    constructor; cbn [ow hd ch_oh ch_ho leaked]; try apply I.
+    intros k. pose proof (inv_count s I k) as E. rewrite Hch in E. cbn [inflight] in E. cbn [cnt]. lia.
+  - apply Inv_myref; assumption.
+  - apply Inv_ack; assumption.
+Qed.
+
+(* ---- the owner receives a decref / a your-reference *)
+Lemma decref_head_bound s c n rid rest :
+  Inv s -> ch_ho s = Decref c n rid :: rest ->
+  0 < n /\ exists e, find_clid (o_tab (ow s)) c = Some e /\ n <= oe_rc e /\ oe_rc e = rc (o_tab (ow s)) c.
+Proof.
+  intros I Hch. pose proof (inv_dpos s I) as D. rewrite Hch in D. inversion D as [|? ? Dn Dr]; subst. cbn in Dn.
+  pose proof (inv_count s I c) as E. rewrite Hch in E. cbn [decs] in E. rewrite Z.eqb_refl in E.
+  pose proof (recv_sum_nonneg _ c (inv_recv s I)). pose proof (inflight_nonneg (ch_oh s) c).
+  pose proof (decs_nonneg _ c Dr). pose proof (cnt_nonneg (leaked s) c).
+  split; [exact Dn|]. destruct (rc_pos_found (o_tab (ow s)) c) as (e & F & R); [lia|].
+  exists e. split; [exact F|]. split; lia.
+Qed.
+
+Lemma Inv_recv_ho s : Inv s -> Inv (fst (do_recv_ho s)).
+Proof.
+  intros I. unfold do_recv_ho. destruct (ch_ho s) as [|[c n rid|c k] rest] eqn:Hch; cbn [fst]; auto.
+  - destruct (decref_head_bound s c n rid rest I Hch) as (Hn & e & F & Hle & Hrc).
+    rewrite F, decref_spec. assert (G : oe_rc e >=? n = true) by (apply Z.geb_le; lia). rewrite G. cbn [fst].
+    pose proof (inv_dpos s I) as D. rewrite Hch in D. inversion D as [|? ? _ Dr]; subst.
+    set (tab' := if oe_rc e - n =? 0 then del_clid (o_tab (ow s)) c else set_rc (o_tab (ow s)) c (oe_rc e - n)).
+    assert (R : forall k, rc tab' k = if k =? c then rc (o_tab (ow s)) k - n else rc (o_tab (ow s)) k).
+    { intros k. subst tab'. destruct (oe_rc e - n =? 0) eqn:Ez.
+      - rewrite rc_del. apply Z.eqb_eq in Ez. destruct (k =? c) eqn:Ek; [|reflexivity]. apply Z.eqb_eq in Ek. subst. lia.
+      - rewrite rc_set_rc, F. destruct (k =? c) eqn:Ek; [|reflexivity]. apply Z.eqb_eq in Ek. subst. lia. }
+    constructor; cbn [ow hd ch_oh ch_ho leaked o_tab o_next o_failed].
+    + intros k. rewrite R, inflight_app. pose proof (inv_count s I k) as E. rewrite Hch in E. cbn [decs] in E.
+      rewrite (Z.eqb_sym k c). destruct (c =? k); lia.
+    + apply (inv_recv s I).
+    + exact Dr.
+    + pose proof (inv_own s I) as H. rewrite Forall_forall in *. subst tab'. intros a Ha.
+      destruct (oe_rc e - n =? 0) eqn:Ez.
+      * apply filter_In in Ha as [Ha _]. auto.
+      * apply Z.eqb_neq in Ez. unfold set_rc in Ha. apply in_map_iff in Ha as (b & Eb & Hb). specialize (H b Hb).
+        destruct (oe_clid b =? c); subst a; cbn [oe_rc oe_clid]; lia.
+    + apply (inv_tab s I).
+    + apply (inv_alive s I).
+    + apply (inv_pend s I).
+    + pose proof (inv_home s I) as H. rewrite Hch in H. cbn [home_ok] in H.
+      eapply home_ok_mono; [|exact H]. intros k. cbv beta. rewrite R. lia.
+    + apply (inv_nofail s I).
+  - constructor; cbn [ow hd ch_oh ch_ho leaked]; try apply I.
+    + intros k0. pose proof (inv_count s I k0) as E. rewrite Hch in E. cbn [decs] in E. exact E.
+    + pose proof (inv_dpos s I) as D. rewrite Hch in D. inversion D; assumption.
+    + pose proof (inv_home s I) as H. rewrite Hch in H. cbn [home_ok] in H. apply H.
+Qed.
+
+(* ---- the proxy dies *)
+Lemma Inv_drop s p : Inv s -> Inv (fst (do_drop s p)).
+Proof.
+  intros I. unfold do_drop. destruct (find_proxy (h_trk (hd s)) p) as [i|] eqn:F; cbn [fst]; [|exact I].
+  apply find_proxy_some in F as (t & Ht & Hp).
+  constructor; cbn [ow hd ch_oh ch_ho leaked h_trk h_tab h_pend]; try apply I.
+  - intros c. rewrite (recv_sum_upd _ _ _ t c Ht). unfold contrib. cbn [t_clid t_recv]. rewrite (inv_count s I c). lia.
+  - apply Forall_upd_nth; [apply (inv_recv s I) | intros a _ Ha; exact Ha].
+  - intros c j H. apply (inv_tab s I) in H as (u & Hu & Hc). rewrite nth_error_upd_nth.
+    destruct (Nat.eqb j i); [rewrite Hu; cbn; eauto | eauto].
+  - apply Forall_upd_nth; [apply (inv_alive s I) | intros a _ _ Hn; cbn in Hn; congruence].
+  - intros j u. rewrite nth_error_upd_nth. destruct (Nat.eqb j i) eqn:Ej.
+    + apply Nat.eqb_eq in Ej. subst j. intros _ _. right. apply in_or_app. right. left. reflexivity.
+    + intros Hu Hr. destruct (inv_pend s I _ _ Hu Hr); [left; assumption | right; apply in_or_app; left; assumption].
+Qed.
+
+(* ---- _handleRefLost *)
+Lemma Inv_reflost s : Inv s -> Inv (fst (do_reflost s)).
+Proof.
+  intros I. unfold do_reflost. destruct (h_pend (hd s)) as [|i pend] eqn:Hp; cbn [fst]; [exact I|].
+  destruct (nth_error (h_trk (hd s)) i) as [t|] eqn:Ht; cbn [fst]; [|exact I].
+  assert (Hpend' : forall j u, nth_error (h_trk (hd s)) j = Some u -> 1 <= t_recv u -> j <> i ->
+                               t_proxy u <> None \/ In j pend).
+  { intros j u Hu Hr Hne. destruct (inv_pend s I _ _ Hu Hr) as [H|H]; [left; exact H|]. rewrite Hp in H.
+    destruct H as [H|H]; [congruence | right; exact H]. }
+  destruct (t_proxy t) as [q|] eqn:Hq.
+  - (* resurrected *)
+    cbn [fst]. constructor; cbn [ow hd ch_oh ch_ho leaked h_trk h_tab h_pend]; try apply I.
+    intros j u Hu Hr. destruct (Nat.eq_dec j i) as [->|Hne]; [|apply Hpend'; assumption].
+    left. rewrite Ht in Hu. inversion Hu; subst u. congruence.
+  - rewrite handleRefLost_assign_spec, handleRefLost_skip_spec.
+    assert (Ht0 : 0 <= t_recv t).
+    { pose proof (inv_recv s I) as H. rewrite Forall_forall in H. apply H. eapply nth_error_In; eauto. }
+    assert (Hpend2 : forall j u, nth_error (upd_nth (h_trk (hd s)) i
+                         (fun t0 => {| t_clid := t_clid t0; t_recv := 0; t_proxy := t_proxy t0 |})) j = Some u ->
+                       1 <= t_recv u -> t_proxy u <> None \/ In j pend).
+    { intros j u. rewrite nth_error_upd_nth. destruct (Nat.eqb j i) eqn:Ej.
+      - apply Nat.eqb_eq in Ej. subst j. rewrite Ht. cbn [option_map]. intros Hu; inversion Hu; subst u. cbn. lia.
+      - apply Nat.eqb_neq in Ej. intros Hu Hr. apply Hpend'; assumption. }
+    assert (Htab2 : forall c j, tab_get (h_tab (hd s)) c = Some j -> exists u,
+              nth_error (upd_nth (h_trk (hd s)) i (fun t0 => {| t_clid := t_clid t0; t_recv := 0; t_proxy := t_proxy t0 |})) j
+              = Some u /\ t_clid u = c).
+    { intros c j H. apply (inv_tab s I) in H as (u & Hu & Hc). rewrite nth_error_upd_nth.
+      destruct (Nat.eqb j i); [rewrite Hu; cbn; eauto | eauto]. }
+    destruct (t_recv t =? 0) eqn:Ez; cbn [fst].
+    + apply Z.eqb_eq in Ez.
+      constructor; cbn [ow hd ch_oh ch_ho leaked h_trk h_tab h_pend]; try apply I; try assumption.
+      * intros c. rewrite (recv_sum_upd _ _ _ t c Ht). unfold contrib. cbn [t_clid t_recv]. rewrite (inv_count s I c), Ez.
+        destruct (_ =? _); lia.
+      * apply Forall_upd_nth; [apply (inv_recv s I) | intros a _ _; cbn; lia].
+      * apply Forall_upd_nth; [apply (inv_alive s I) | intros a Ha _ Hn; cbn in Hn].
+        rewrite Ht in Ha. inversion Ha; subst a. congruence.
+    + apply Z.eqb_neq in Ez.
+      constructor; cbn [ow hd ch_oh ch_ho leaked h_trk h_tab h_pend]; try apply I; try assumption.
+      * intros c. rewrite (recv_sum_upd _ _ _ t c Ht), decs_app. unfold contrib. cbn [t_clid t_recv].
+        rewrite (inv_count s I c). destruct (_ =? _); lia.
+      * apply Forall_upd_nth; [apply (inv_recv s I) | intros a _ _; cbn; lia].
+      * apply Forall_app. split; [apply (inv_dpos s I) | constructor; [cbn; lia | constructor]].
+      * apply Forall_upd_nth; [apply (inv_alive s I) | intros a Ha _ Hn; cbn in Hn].
+        rewrite Ht in Ha. inversion Ha; subst a. congruence.
+      * apply home_ok_app_decref. apply (inv_home s I).
+Qed.
+
+(* ---- a proxy is sent home / called through *)
+Lemma Inv_home s p k : Inv s -> Inv (fst (do_home s p k)).
+Proof.
+  intros I. unfold do_home. destruct (find_proxy (h_trk (hd s)) p) as [i|] eqn:F; cbn [fst]; [|exact I].
+  apply find_proxy_some in F as (t & Ht & Hp). rewrite Ht. cbn [fst].
+  constructor; cbn [ow hd ch_oh ch_ho leaked]; try apply I.
+  - intros c. rewrite decs_app, (inv_count s I c). lia.
+  - apply Forall_app. split; [apply (inv_dpos s I) | constructor; [exact Logic.I | constructor]].
+  - apply home_ok_app_home; [apply (inv_home s I)|].
+    rewrite (inv_count s I (t_clid t)).
+    pose proof (recv_sum_ge _ _ _ (t_clid t) (inv_recv s I) Ht) as G. unfold contrib in G. rewrite Z.eqb_refl in G.
+    pose proof (inv_alive s I) as A. rewrite Forall_forall in A. specialize (A t (nth_error_In _ _ Ht)).
+    assert (1 <= t_recv t) by (apply A; congruence).
+    pose proof (inflight_nonneg (ch_oh s) (t_clid t)). pose proof (cnt_nonneg (leaked s) (t_clid t)). lia.
+Qed.
+
+(* ---- connection loss *)
+Lemma Inv_lost s : Inv s -> Inv (fst (do_lost s)).
+Proof.
+  intros I. unfold do_lost. destruct finish_clears_spec as [-> ->]. cbn [fst].
+  constructor; cbn; auto; try (intros; discriminate); try apply I.
+  intros i t H. destruct i; discriminate.
+Qed.
+
+Theorem Inv_step s o : Inv s -> Inv (fst (step s o)).
+Proof.
+  intros I. unfold step. destruct (lost s); [exact I|].
+  destruct o; [apply Inv_send | apply Inv_recv_oh | apply Inv_recv_ho | apply Inv_drop | apply Inv_reflost
+               | apply Inv_home | apply Inv_lost]; exact I.
+Qed.
+
+Theorem Inv_run ops : forall s, Inv s -> Inv (run s ops).
+Proof. induction ops as [|o r IH]; intros s I; cbn [run]; [exact I | apply IH, Inv_step, I]. Qed.
+
+Corollary Inv_reachable ops : Inv (run init ops).
+Proof. apply Inv_run, Inv_init. Qed.
+
+(* ------------------------------------------------------------------ *)
+(* the owner's ids: never reused; the table is a partial bijection object <-> clid *)
+
+Record OwnWf (s : state) : Prop := {
+  ow_alloc_nodup : NoDup (map fst (o_alloc (ow s)));
+  ow_alloc_lt : Forall (fun a => fst a < o_next (ow s)) (o_alloc (ow s));
+  ow_clids : NoDup (map oe_clid (o_tab (ow s)));
+  ow_objs : NoDup (map oe_obj (o_tab (ow s)));
+  ow_logged : Forall (fun e => In (oe_clid e, oe_obj e) (o_alloc (ow s))) (o_tab (ow s))
+}.
+
+Lemma OwnWf_init : OwnWf init.
+Proof. constructor; cbn; constructor. Qed.
+
+Lemma logged_set_rc al tab c v :
+  Forall (fun e => In (oe_clid e, oe_obj e) al) tab -> Forall (fun e => In (oe_clid e, oe_obj e) al) (set_rc tab c v).
+Proof.
+  rewrite !Forall_forall. intros H a Ha. unfold set_rc in Ha. apply in_map_iff in Ha as (b & Eb & Hb).
+  specialize (H b Hb). destruct (oe_clid b =? c); subst a; cbn [oe_clid oe_obj]; exact H.
+Qed.
+
+Lemma OwnWf_step s o : OwnWf s -> OwnWf (fst (step s o)).
+Proof.
+  intros W. unfold step. destruct (lost s); [exact W|]. destruct o; cbn [fst].
+  - (* Send *)
+    unfold do_send. destruct (find_obj (o_tab (ow s)) x) as [e|] eqn:F; rewrite send_spec; cbn [fst].
+    + constructor; cbn [ow o_tab o_next o_alloc]; try apply W.
+      * rewrite map_clid_set_rc. apply W.
+      * rewrite map_obj_set_rc. apply W.
+      * apply logged_set_rc. apply W.
+    + constructor; cbn [ow o_tab o_next o_alloc].
+      * cbn [map fst]. constructor; [|apply W]. intros Hin. apply in_map_iff in Hin as (a & Ea & Ha).
+        pose proof (ow_alloc_lt s W) as L. rewrite Forall_forall in L. specialize (L a Ha). lia.
+      * constructor; [cbn; lia|]. apply Forall_impl with (2 := ow_alloc_lt s W). intros a Ha. lia.
+      * rewrite map_clid_set_rc. cbn [map oe_clid]. constructor; [|apply W].
+        intros Hin. apply in_map_iff in Hin as (a & Ea & Ha).
+        pose proof (ow_logged s W) as G. rewrite Forall_forall in G. specialize (G a Ha).
+        pose proof (ow_alloc_lt s W) as L. rewrite Forall_forall in L. specialize (L _ G). cbn [fst] in L. lia.
+      * rewrite map_obj_set_rc. cbn [map oe_obj]. constructor; [|apply W].
+        intros Hin. apply in_map_iff in Hin as (a & Ea & Ha).
+        pose proof (find_none _ _ F a Ha) as N. cbn in N. apply Z.eqb_neq in N. congruence.
+      * apply logged_set_rc. constructor; [cbn; left; reflexivity|].
+        apply Forall_impl with (2 := ow_logged s W). intros a Ha. right. exact Ha.
+  - (* RecvOH: the owner is untouched *)
+    unfold do_recv_oh. destruct (ch_oh s) as [|[c [|]|rid] rest]; cbn [fst]; try exact W.
+    + constructor; cbn [ow]; apply W.
+    + rewrite do_myref_eq. unfold myref_core. destruct (nth_error _ _) as [t|]; [|exact W].
+      destruct (get_ref t (h_nextpid (hd s))) as [[t' p] np]. cbn [fst]. constructor; cbn [ow]; apply W.
+    + constructor; cbn [ow]; apply W.
+  - (* RecvHO *)
+    unfold do_recv_ho. destruct (ch_ho s) as [|[c n rid|c k] rest]; cbn [fst]; try exact W.
+    + destruct (find_clid (o_tab (ow s)) c) as [e|]; [|constructor; cbn [ow]; apply W].
+      destruct (decref n (oe_rc e)) as [[done v]|]; cbn [fst]; constructor; cbn [ow o_tab o_next o_alloc]; try apply W.
+      * destruct done; [apply NoDup_map_filter | rewrite map_clid_set_rc]; apply W.
+      * destruct done; [apply NoDup_map_filter | rewrite map_obj_set_rc]; apply W.
+      * destruct done; [|apply logged_set_rc; apply W].
+        pose proof (ow_logged s W) as G. rewrite Forall_forall in *. intros a Ha. apply filter_In in Ha as [Ha _]. auto.
+    + constructor; cbn [ow]; apply W.
+  - unfold do_drop. destruct (find_proxy _ _); cbn [fst]; [constructor; cbn [ow]; apply W | exact W].
+  - unfold do_reflost. destruct (h_pend (hd s)); [exact W|]. destruct (nth_error _ _) as [t|]; [|exact W].
+    destruct (t_proxy t); [constructor; cbn [ow]; apply W|].
+    destruct (handleRefLost_assign (t_recv t)) as [cnt0 r']. destruct (handleRefLost_skip cnt0); constructor; cbn [ow]; apply W.
+  - unfold do_home. destruct (find_proxy _ _); [|exact W]. destruct (nth_error _ _); [|exact W].
+    constructor; cbn [ow]; apply W.
+  - unfold do_lost. cbn [fst]. constructor; cbn [ow o_tab o_next o_alloc]; try apply W.
+    + destruct (_ && _); [constructor | apply W].
+    + destruct (_ && _); [constructor | apply W].
+    + destruct (_ && _); [constructor | apply W].
+Qed.
+
+Lemma OwnWf_run ops : forall s, OwnWf s -> OwnWf (run s ops).
+Proof. induction ops as [|o r IH]; intros s W; cbn [run]; [exact W | apply IH, OwnWf_step, W]. Qed.
+
+(* the log only grows: what a clid was allocated for never changes *)
+Lemma alloc_grows s o a : In a (o_alloc (ow s)) -> In a (o_alloc (ow (fst (step s o)))).
+Proof.
+  intros H. unfold step. destruct (lost s); [exact H|]. destruct o; cbn [fst].
+  - unfold do_send. destruct (find_obj _ _); rewrite send_spec; cbn [fst ow o_alloc]; [exact H | right; exact H].
+  - unfold do_recv_oh. destruct (ch_oh s) as [|[c [|]|rid] rest]; cbn [fst]; try exact H.
+    rewrite do_myref_eq. unfold myref_core. destruct (nth_error _ _) as [t|]; [|exact H].
+    destruct (get_ref t (h_nextpid (hd s))) as [[t' p] np]. exact H.
+  - unfold do_recv_ho. destruct (ch_ho s) as [|[c n rid|c k] rest]; cbn [fst]; try exact H.
+    destruct (find_clid _ _) as [e|]; [|exact H]. destruct (decref n (oe_rc e)) as [[done v]|]; exact H.
+  - unfold do_drop. destruct (find_proxy _ _); exact H.
+  - unfold do_reflost. destruct (h_pend (hd s)); [exact H|]. destruct (nth_error _ _) as [t|]; [|exact H].
+    destruct (t_proxy t); [exact H|].
+    destruct (handleRefLost_assign (t_recv t)) as [cnt0 r']. destruct (handleRefLost_skip cnt0); exact H.
+  - unfold do_home. destruct (find_proxy _ _); [|exact H]. destruct (nth_error _ _); exact H.
+  - exact H.
+Qed.
+
+(* ------------------------------------------------------------------ *)
+(* connection loss *)
+
+Lemma step_lost_id s o : lost s = true -> step s o = (s, []).
+Proof. intros H. unfold step. rewrite H. reflexivity. Qed.
+
+Lemma run_lost_id ops s : lost s = true -> run s ops = s.
+Proof. induction ops as [|o r IH]; cbn [run]; [reflexivity|]. intros H. rewrite step_lost_id by exact H. cbn [fst]. apply IH, H. Qed.
+
+Definition LostEmpty (s : state) : Prop :=
+  lost s = true -> o_tab (ow s) = [] /\ h_tab (hd s) = [] /\ ch_oh s = [] /\ ch_ho s = [].
+
+Lemma lost_preserved s o : lost s = false -> o <> ConnLost -> lost (fst (step s o)) = false.
+Proof.
+  intros H Hne. unfold step. rewrite H. destruct o; cbn [fst]; try congruence.
+  - unfold do_send. destruct (find_obj _ _); rewrite send_spec; exact H.
+  - unfold do_recv_oh. destruct (ch_oh s) as [|[c [|]|rid] rest]; cbn [fst]; try exact H.
+    rewrite do_myref_eq. unfold myref_core. destruct (nth_error _ _) as [t|]; [|exact H].
+    destruct (get_ref t (h_nextpid (hd s))) as [[t' p] np]. exact H.
+  - unfold do_recv_ho. destruct (ch_ho s) as [|[c n rid|c k] rest]; cbn [fst]; try exact H.
+    destruct (find_clid _ _) as [e|]; [|exact H]. destruct (decref n (oe_rc e)) as [[done v]|]; exact H.
+  - unfold do_drop. destruct (find_proxy _ _); exact H.
+  - unfold do_reflost. destruct (h_pend (hd s)); [exact H|]. destruct (nth_error _ _) as [t|]; [|exact H].
+    destruct (t_proxy t); [exact H|].
+    destruct (handleRefLost_assign (t_recv t)) as [cnt0 r']. destruct (handleRefLost_skip cnt0); exact H.
+  - unfold do_home. destruct (find_proxy _ _); [|exact H]. destruct (nth_error _ _); exact H.
+Qed.
+
+Lemma LostEmpty_step s o : LostEmpty s -> LostEmpty (fst (step s o)).
+Proof.
+  intros L. destruct (lost s) eqn:Hl.
+  - rewrite step_lost_id by exact Hl. exact L.
+  - destruct o; try (intros H; rewrite lost_preserved in H by (auto; discriminate); discriminate).
+    intros _. unfold step. rewrite Hl. unfold do_lost. destruct finish_clears_spec as [-> ->]. cbn. auto.
+Qed.
+
+Lemma LostEmpty_run ops : forall s, LostEmpty s -> LostEmpty (run s ops).
+Proof. induction ops as [|o r IH]; intros s L; cbn [run]; [exact L | apply IH, LostEmpty_step, L]. Qed.
+
+Lemma run_app ops1 ops2 s : run s (ops1 ++ ops2) = run (run s ops1) ops2.
+Proof. revert s; induction ops1 as [|o r IH]; intros s; cbn [app run]; [reflexivity | apply IH]. Qed.
+
+Lemma lost_after_connlost s : lost (fst (step s ConnLost)) = true.
+Proof. unfold step. destruct (lost s) eqn:H; [exact H | reflexivity]. Qed.
+
+Theorem loss_forgets ops1 ops2 :
+  let s := run init (ops1 ++ ConnLost :: ops2) in
+  lost s = true /\ o_tab (ow s) = [] /\ h_tab (hd s) = [] /\ ch_oh s = [] /\ ch_ho s = [].
+Proof.
+  cbv zeta. rewrite run_app. cbn [run]. set (s1 := run init ops1).
+  assert (L1 : LostEmpty s1) by (apply LostEmpty_run; intros H; discriminate).
+  pose proof (lost_after_connlost s1) as Hl. rewrite run_lost_id by exact Hl.
+  split; [exact Hl|]. exact (LostEmpty_step s1 ConnLost L1 Hl).
+Qed.
+
+(* ------------------------------------------------------------------ *)
+(* C08: as long as no decref answer frees another tracker's table entry (safe_op), every tracker that counts
+   references -- in particular every tracker with a live proxy -- is the one registered for its clid *)
+
+Definition Attached (s : state) : Prop :=
+  forall i t, nth_error (h_trk (hd s)) i = Some t -> 1 <= t_recv t -> tab_get (h_tab (hd s)) (t_clid t) = Some i.
+
+Lemma Attached_step s o : Inv s -> Attached s -> safe_op s o = true -> Attached (fst (step s o)).
+Proof.
+  intros I A Hs. unfold Attached in *. unfold step. destruct (lost s) eqn:Hl; [exact A|]. destruct o; cbn [fst].
+  - unfold do_send. destruct (find_obj _ _); rewrite send_spec; exact A.
+  - unfold do_recv_oh. destruct (ch_oh s) as [|[c [|]|rid] rest] eqn:Hch; cbn [fst]; try exact A.
+    + (* my-reference *)
+      rewrite do_myref_eq. unfold myref_core. destruct (myref_nth s c I) as (t & Ht & Hc). rewrite Ht.
+      pose proof (get_ref_facts t (h_nextpid (hd s))) as G. destruct (get_ref t (h_nextpid (hd s))) as [[t' p] np].
+      destruct G as (G1 & G2 & G3 & G4). cbn [fst hd h_trk h_tab].
+      intros j u. rewrite nth_error_upd_nth. destruct (Nat.eqb j (myref_idx s c)) eqn:Ej.
+      * apply Nat.eqb_eq in Ej. subst j. rewrite Ht. cbn [option_map]. intros E _. inversion E; subst u. rewrite G1, Hc.
+        unfold myref_tab, myref_idx. destruct (tab_get (h_tab (hd s)) c) eqn:Gt; [exact Gt|].
+        cbn [tab_get]. rewrite Z.eqb_refl. reflexivity.
+      * apply Nat.eqb_neq in Ej. unfold myref_trk, myref_tab, myref_idx in *.
+        destruct (tab_get (h_tab (hd s)) c) as [i|] eqn:Gt; [apply A|].
+        intros Hu Hr. assert (Hj : (j < List.length (h_trk (hd s)))%nat).
+        { destruct (Nat.lt_ge_cases j (List.length (h_trk (hd s)))) as [Hlt|Hge]; [exact Hlt|].
+          rewrite nth_error_app2 in Hu by exact Hge.
+          destruct (j - List.length (h_trk (hd s)))%nat as [|n] eqn:En; [lia|]. destruct n; discriminate. }
+        rewrite nth_error_app1 in Hu by exact Hj. specialize (A _ _ Hu Hr).
+        cbn [tab_get]. destruct (c =? t_clid u) eqn:Ec; [|exact A].
+        apply Z.eqb_eq in Ec. subst c. congruence.
+    + (* answer to a decref *)
+      unfold do_ack. cbn [fst hd h_trk h_tab]. rewrite freeTracker_delkey_spec.
+      cbn [safe_op] in Hs. rewrite Hl, Hch in Hs.
+      destruct (acks_get (h_acks (hd s)) rid) as [i|]; [|exact A].
+      destruct (nth_error (h_trk (hd s)) i) as [t|] eqn:Ht; [|exact A].
+      rewrite freeTracker_keeps_spec in *. destruct (t_recv t =? 0) eqn:Ez; cbn [negb] in *; [|exact A].
+      apply Z.eqb_eq in Ez. intros j u Hu Hr. rewrite tab_get_del. specialize (A _ _ Hu Hr).
+      destruct (t_clid u =? t_clid t) eqn:Ec; [|exact A]. exfalso.
+      apply Z.eqb_eq in Ec. rewrite Ec in A. rewrite A in Hs. apply Nat.eqb_eq in Hs. subst j.
+      rewrite Ht in Hu. inversion Hu; subst u. lia.
+  - unfold do_recv_ho. destruct (ch_ho s) as [|[c n rid|c k] rest]; cbn [fst]; try exact A.
+    destruct (find_clid _ _) as [e|]; [|exact A]. destruct (decref n (oe_rc e)) as [[done v]|]; exact A.
+  - unfold do_drop. destruct (find_proxy (h_trk (hd s)) p) as [i|]; cbn [fst]; [|exact A].
+    cbn [hd h_trk h_tab]. intros j u. rewrite nth_error_upd_nth. destruct (Nat.eqb j i); [|apply A].
+    destruct (nth_error (h_trk (hd s)) j) as [t|] eqn:Ht; cbn [option_map]; [|discriminate].
+    intros E Hr. inversion E; subst u. cbn [t_clid t_recv] in *. apply A; assumption.
+  - unfold do_reflost. destruct (h_pend (hd s)) as [|i pend]; [exact A|].
+    destruct (nth_error (h_trk (hd s)) i) as [t|] eqn:Ht; [|exact A].
+    destruct (t_proxy t); [exact A|]. rewrite handleRefLost_assign_spec.
+    assert (Hcore : forall j u, nth_error (upd_nth (h_trk (hd s)) i
+                        (fun t0 => {| t_clid := t_clid t0; t_recv := 0; t_proxy := t_proxy t0 |})) j = Some u ->
+                      1 <= t_recv u -> tab_get (h_tab (hd s)) (t_clid u) = Some j).
+    { intros j u. rewrite nth_error_upd_nth. destruct (Nat.eqb j i); [|apply A].
+      destruct (nth_error (h_trk (hd s)) j); cbn [option_map]; [|discriminate].
+      intros E Hr. inversion E; subst u. cbn in Hr. lia. }
+    destruct (handleRefLost_skip (t_recv t)); exact Hcore.
+  - unfold do_home. destruct (find_proxy _ _); [|exact A]. destruct (nth_error _ _); exact A.
+  - unfold do_lost. cbn [fst hd h_trk]. intros j u Hu. destruct j; discriminate.
+Qed.
+
+Lemma Attached_run ops : forall s, Inv s -> Attached s -> safe_run s ops -> Attached (run s ops).
+Proof.
+  induction ops as [|o r IH]; intros s I A Hs; cbn [run]; [exact A|]. destruct Hs as [H1 H2].
+  apply IH; [apply Inv_step, I | apply Attached_step; assumption | exact H2].
+Qed.
+
+Lemma Attached_init : Attached init.
+Proof. intros i t H. destruct i; discriminate. Qed.
+
+(* delivering a my-reference whose clid has a live proxy returns that very proxy *)
+Theorem same_proxy_partial ops :
+  safe_run init ops ->
+  let s := run init ops in
+  forall i t p rest,
+    lost s = false -> nth_error (h_trk (hd s)) i = Some t -> t_proxy t = Some p ->
+    ch_oh s = MyRef (t_clid t) false :: rest ->
+    snd (step s RecvOH) = [EvDelivered p].
+Proof.
+  intros Hs s i t p rest Hl Ht Hp Hch.
+  pose proof (Inv_reachable ops) as I. fold s in I.
+  pose proof (Attached_run ops init Inv_init Attached_init Hs) as A. fold s in A.
+  assert (Hr : 1 <= t_recv t).
+  { pose proof (inv_alive s I) as H. rewrite Forall_forall in H. apply (H t (nth_error_In _ _ Ht)). congruence. }
+  specialize (A _ _ Ht Hr).
+  unfold step. rewrite Hl. unfold do_recv_oh. rewrite Hch. unfold do_myref. rewrite A, Ht.
+  unfold get_ref. rewrite Hp. reflexivity.
+Qed.
+
+(* ... hence at most one live proxy per clid *)
+Theorem one_proxy_per_clid_partial ops :
+  safe_run init ops ->
+  let s := run init ops in
+  forall i j ti tj, nth_error (h_trk (hd s)) i = Some ti -> nth_error (h_trk (hd s)) j = Some tj ->
+                    t_proxy ti <> None -> t_proxy tj <> None -> t_clid ti = t_clid tj -> i = j.
+Proof.
+  intros Hs s i j ti tj Hi Hj Pi Pj Ec.
+  pose proof (Inv_reachable ops) as I. fold s in I.
+  pose proof (Attached_run ops init Inv_init Attached_init Hs) as A. fold s in A.
+  pose proof (inv_alive s I) as H. rewrite Forall_forall in H.
+  pose proof (A _ _ Hi (H ti (nth_error_In _ _ Hi) Pi)) as E1.
+  pose proof (A _ _ Hj (H tj (nth_error_In _ _ Hj) Pj)) as E2. congruence.
+Qed.
+
+(* D16: the e9 history.  Object 1 is sent; proxy dropped (decref#1); sent again before the owner sees decref#1;
+   the owner answers decref#1; the holder gets my-reference#2, drops the proxy (decref#2), THEN gets answer#1 with
+   received_count == 0 and forgets the tracker; the object is sent a third time before the owner sees decref#2: a NEW
+   tracker and proxy; answer#2 then deletes the NEW tracker's table entry by clid; fourth send. *)
+Definition d16_ops : list op :=
+  [Send 1 false; RecvOH; DropProxy 0; HandleRefLost; Send 1 false; RecvHO; RecvOH; DropProxy 1; HandleRefLost; RecvOH;
+   Send 1 false; RecvOH; RecvHO; RecvOH; Send 1 false].
+
+Theorem same_proxy_refuted :
+  exists ops, let s := run init ops in
+  exists i t p rest,
+    lost s = false /\ nth_error (h_trk (hd s)) i = Some t /\ t_proxy t = Some p /\
+    ch_oh s = MyRef (t_clid t) false :: rest /\ snd (step s RecvOH) <> [EvDelivered p].
+Proof.
+  exists d16_ops. cbv zeta.
+  exists 1%nat, {| t_clid := 1; t_recv := 1; t_proxy := Some 2 |}, 2, [].
+  vm_compute. repeat split; discriminate.
+Qed.
+
+(* the guard of same_proxy_partial is met by non-trivial histories, e.g. the same sends and drops when every
+   answer is processed before the next my-reference *)
+Example safe_run_example :
+  safe_run init [Send 1 false; RecvOH; DropProxy 0; HandleRefLost; Send 1 false; RecvHO; RecvOH; RecvOH; DropProxy 1;
+                 HandleRefLost; RecvHO; RecvOH; Send 1 false; RecvOH; Send 1 false; RecvOH].
+Proof. vm_compute. repeat split. Qed.
+
+Example d16_not_safe : ~ safe_run init d16_ops.
+Proof. vm_compute. intuition discriminate. Qed.
+
+(* ------------------------------------------------------------------ *)
+(* C08: home *)
+
+Theorem home_original ops :
+  let s := run init ops in
+  forall c k rest, lost s = false -> ch_ho s = ToOwner c k :: rest ->
+  exists x, In (c, x) (o_alloc (ow s)) /\ snd (step s RecvHO) = [EvHome k (Some x)].
+Proof.
+  intros s c k rest Hl Hch. pose proof (Inv_reachable ops) as I. fold s in I.
+  pose proof (OwnWf_run ops init OwnWf_init) as W. fold s in W.
+  pose proof (inv_home s I) as H. rewrite Hch in H. cbn [home_ok] in H. destruct H as [H _].
+  destruct (rc_pos_found _ _ H) as (e & F & _).
+  exists (oe_obj e). split.
+  - pose proof (ow_logged s W) as G. rewrite Forall_forall in G. apply find_clid_some in F as [Hin Ec].
+    specialize (G e Hin). rewrite Ec in G. exact G.
+  - unfold step. rewrite Hl. unfold do_recv_ho. rewrite Hch. cbn [snd]. rewrite F. reflexivity.
+Qed.
+
+(* what the owner puts on the wire for object x is a clid allocated for x (and for nothing else: alloc_functional) *)
+Theorem send_names_object ops x d :
+  let s := run init ops in lost s = false ->
+  exists c, ch_oh (fst (step s (Send x d))) = ch_oh s ++ [MyRef c d] /\ In (c, x) (o_alloc (ow (fst (step s (Send x d))))).
+Proof.
+  intros s Hl. pose proof (OwnWf_run ops init OwnWf_init) as W. fold s in W.
+  unfold step. rewrite Hl. unfold do_send. destruct (find_obj (o_tab (ow s)) x) as [e|] eqn:F; rewrite send_spec; cbn [fst ch_oh ow o_alloc].
+  - exists (oe_clid e). split; [reflexivity|]. apply find_some in F as [Hin Ex]. apply Z.eqb_eq in Ex.
+    pose proof (ow_logged s W) as G. rewrite Forall_forall in G. specialize (G e Hin). rewrite Ex in G. exact G.
+  - eexists. split; [reflexivity | left; reflexivity].
+Qed.
+
+Theorem alloc_functional ops :
+  let s := run init ops in
+  forall c x y, In (c, x) (o_alloc (ow s)) -> In (c, y) (o_alloc (ow s)) -> x = y.
+Proof.
+  intros s c x y Hx Hy. pose proof (OwnWf_run ops init OwnWf_init) as W. fold s in W.
+  pose proof (ow_alloc_nodup s W) as N. revert N Hx Hy. generalize (o_alloc (ow s)). intros l.
+  induction l as [|[c0 x0] l IH]; cbn [map fst In]; [tauto|]. intros N. inversion N as [|? ? Hn Hd]; subst.
+  intros [E1|H1] [E2|H2].
+  - congruence.
+  - inversion E1; subst. exfalso. apply Hn. apply in_map_iff. exists (c, y). auto.
+  - inversion E2; subst. exfalso. apply Hn. apply in_map_iff. exists (c, x). auto.
+  - auto.
+Qed.
+
+Theorem alloc_monotone ops o a :
+  In a (o_alloc (ow (run init ops))) -> In a (o_alloc (ow (run init (ops ++ [o])))).
+Proof. intros H. rewrite run_app. cbn [run]. apply alloc_grows. exact H. Qed.
+
+(* ------------------------------------------------------------------ *)
+(* C09 *)
+
+Theorem no_early_release ops :
+  let s := run init ops in
+  forall c, lost s = false ->
+    (exists i t, nth_error (h_trk (hd s)) i = Some t /\ t_proxy t <> None /\ t_clid t = c) \/
+    (exists d, In (MyRef c d) (ch_oh s)) \/ (exists k, In (ToOwner c k) (ch_ho s)) ->
+    exists e, find_clid (o_tab (ow s)) c = Some e /\ 1 <= oe_rc e /\ In (c, oe_obj e) (o_alloc (ow s)).
+Proof.
+  intros s c Hl H. pose proof (Inv_reachable ops) as I. fold s in I.
+  pose proof (OwnWf_run ops init OwnWf_init) as W. fold s in W.
+  assert (P : 0 < rc (o_tab (ow s)) c).
+  { pose proof (recv_sum_nonneg _ c (inv_recv s I)). pose proof (inflight_nonneg (ch_oh s) c).
+    pose proof (decs_nonneg _ c (inv_dpos s I)). pose proof (cnt_nonneg (leaked s) c).
+    destruct H as [(i & t & Ht & Hp & Hc)|[(d & Hin)|(k & Hin)]].
+    - rewrite (inv_count s I c). pose proof (recv_sum_ge _ _ _ c (inv_recv s I) Ht) as G. unfold contrib in G.
+      rewrite Hc, Z.eqb_refl in G. pose proof (inv_alive s I) as A. rewrite Forall_forall in A.
+      specialize (A t (nth_error_In _ _ Ht) Hp). lia.
+    - rewrite (inv_count s I c). pose proof (inflight_in _ _ _ Hin). lia.
+    - eapply home_ok_in; [apply (inv_dpos s I) | apply (inv_home s I) | exact Hin]. }
+  destruct (rc_pos_found _ _ P) as (e & F & R). exists e. split; [exact F|]. split; [lia|].
+  pose proof (ow_logged s W) as G. rewrite Forall_forall in G. apply find_clid_some in F as [Hin Ec].
+  specialize (G e Hin). rewrite Ec in G. exact G.
+Qed.
+
+Theorem decref_bounded ops :
+  let s := run init ops in
+  o_failed (ow s) = false /\
+  forall c n rid rest, ch_ho s = Decref c n rid :: rest ->
+    exists e, find_clid (o_tab (ow s)) c = Some e /\ 0 < n <= oe_rc e /\ snd (step s RecvHO) = [].
+Proof.
+  intros s. pose proof (Inv_reachable ops) as I. fold s in I. split; [apply (inv_nofail s I)|].
+  intros c n rid rest Hch. destruct (decref_head_bound s c n rid rest I Hch) as (Hn & e & F & Hle & _).
+  exists e. split; [exact F|]. split; [lia|]. unfold step. destruct (lost s); [reflexivity|].
+  unfold do_recv_ho. rewrite Hch, F, decref_spec.
+  assert (G : oe_rc e >=? n = true) by (apply Z.geb_le; lia). rewrite G. reflexivity.
+Qed.
+
+Theorem no_reuse ops :
+  let s := run init ops in
+  NoDup (map fst (o_alloc (ow s))) /\ NoDup (map oe_clid (o_tab (ow s))) /\ NoDup (map oe_obj (o_tab (ow s))) /\
+  Forall (fun e => In (oe_clid e, oe_obj e) (o_alloc (ow s))) (o_tab (ow s)).
+Proof.
+  intros s. pose proof (OwnWf_run ops init OwnWf_init) as W. fold s in W.
+  split; [apply W|]. split; [apply W|]. split; apply W.
+Qed.
+
+Theorem no_leak ops :
+  let s := run init ops in
+  quiescent s -> no_proxy s -> leaked s = [] -> o_tab (ow s) = [].
+Proof.
+  intros s (Q1 & Q2 & Q3) Np Lk. pose proof (Inv_reachable ops) as I. fold s in I.
+  destruct (o_tab (ow s)) as [|e tab] eqn:Et; [reflexivity|]. exfalso.
+  assert (Z0 : Forall (fun t => t_recv t = 0) (h_trk (hd s))).
+  { rewrite Forall_forall. intros t Hin. apply In_nth_error in Hin as (i & Hi).
+    pose proof (inv_recv s I) as R. rewrite Forall_forall in R. specialize (R t (nth_error_In _ _ Hi)).
+    destruct (Z.eq_dec (t_recv t) 0) as [E|E]; [exact E|]. exfalso.
+    destruct (inv_pend s I i t Hi) as [H|H]; [lia | | rewrite Q3 in H; exact H].
+    unfold no_proxy in Np. rewrite Forall_forall in Np. apply H. apply Np. eapply nth_error_In; eauto. }
+  pose proof (inv_count s I (oe_clid e)) as C. rewrite Et, rc_cons, Z.eqb_refl, (recv_sum_zero _ _ Z0), Q1, Q2, Lk in C.
+  cbn in C. pose proof (inv_own s I) as O. rewrite Et in O. inversion O; subst. lia.
+Qed.
+
+(* D9: a call whose my-reference the receiver throws away leaks the owner's entry until the connection ends *)
+Theorem no_leak_refuted :
+  exists ops, let s := run init ops in quiescent s /\ no_proxy s /\ o_tab (ow s) <> [].
+Proof.
+  exists [Send 1 true; RecvOH]. vm_compute. split; [repeat split|]. split; [constructor | discriminate].
+Qed.
+
+(* non-vacuity of no_leak: a history with re-sends racing releases that ends quiescent with an empty table *)
+Example no_leak_example :
+  let s := run init [Send 1 false; Send 2 false; RecvOH; DropProxy 0; HandleRefLost; Send 1 false; RecvHO; RecvOH; RecvOH;
+                     RecvOH; DropProxy 1; DropProxy 2; HandleRefLost; HandleRefLost; RecvHO; RecvHO; RecvOH; RecvOH] in
+  quiescent s /\ no_proxy s /\ leaked s = [] /\ o_tab (ow s) = [] /\ o_next (ow s) = 3.
+Proof. vm_compute. repeat split; repeat constructor. Qed.
